@@ -1,6 +1,7 @@
 """C07 -- calls without an applicable pattern fail loudly or fall through as documented."""
 import collections
 from .. import cases as K
+from .. import common as C
 from ..layer_a import Engine, proj_kinds
 from ..runner import run_coexec, replay_coexec
 
@@ -77,7 +78,7 @@ def engines(tier):
 def run(tier, seed):
     return run_coexec("C07", tier, seed, module=MODULE, theorems=THEOREMS, gen_cases=gen_cases,
                       nontrivial=nontrivial, rule=RULE, engines=engines(tier), stats=stats,
-                      extra_cov={"exhaustive": True})
+                      extra_cov={"exhaustive": True}, extra_obligations=C.inventory_obligation)
 
 
 def replay(path):
